@@ -70,6 +70,10 @@ def generate(rng, tier):
                 op['out'][rng.randrange(2)] = None
             if nin == 2 and rng.random() < 0.25:
                 op['scalar_second'] = rng.choice([2, 0.5, -1])
+            elif nin == 2 and kind == 'power' and rng.random() < 0.4:
+                # second operand from the base space (element or plain
+                # array): NumPy broadcasts it against every part
+                op['base_second'] = rng.choice(['elem', 'arr'])
             if rng.random() < 0.1:
                 op['dtype'] = rng.choice(['float64', 'complex128'])
             if t == 'legacy':
@@ -114,6 +118,18 @@ def generate(rng, tier):
             op['s'] = rng.randrange(nst)
         op['fill'] = rng.choice(GARBAGE)
         ops.append(op)
+    if kind == 'power':
+        # NumPy call mixing a power-space element with an *element* of the
+        # base space: a recorded finding, only tried as the last operation
+        # of a run so that it does not cut histories short
+        for op in ops[:-1]:
+            if op.get('base_second') == 'elem' and op['t'] == 'call':
+                op['base_second'] = 'arr'
+        for _ in range(rng.randint(0, 2)):
+            ops.insert(rng.randrange(len(ops)),
+                       {'t': 'np_asarray', 's': rng.randrange(nst),
+                        'dtype': rng.choice([None, 'float32', 'complex128',
+                                             'float64']), 'fill': 'zero'})
     return {'space': sp, 'nst': nst, 'ops': ops,
             'garbage': rng.choice(GARBAGE[:4]),
             'global_seed': rng.getrandbits(31), 'xseed': rng.getrandbits(32)}
@@ -638,13 +654,49 @@ def _execute_power(plan, ctx, base):
     g = np_rng('c17p', plan['xseed'])
     with seams.allocator('zero'):
         xs = [SP.rand_elem(P, g, positive=True) for _ in range(plan['nst'])]
+        bs = [SP.rand_elem(base, g, positive=True) for _ in range(2)]
     for op in plan['ops']:
+        if op['t'] == 'np_asarray':
+            x = xs[op['s']]
+            want = np.stack([np.asarray(p.asarray()) for p in x.parts])
+            if op['dtype']:
+                if np.dtype(sp['dtype']).kind == 'c' and \
+                        np.dtype(op['dtype']).kind != 'c':
+                    continue
+                want = want.astype(op['dtype'])
+            try:
+                got = np.asarray(x, dtype=op['dtype'])
+            except Exception as e:
+                raise Violation('C17', 'C17/raise/power/np.asarray/' +
+                                type(e).__name__,
+                                'np.asarray(X, dtype={}) on a power-space '
+                                'element raised {}: {}'.format(
+                                    op['dtype'], type(e).__name__,
+                                    str(e)[:120]))
+            nat = lambda a_: a_.astype(a_.dtype.newbyteorder('='))
+            if got.shape != want.shape or _bits(nat(got)) != _bits(nat(want)):
+                raise Violation('C17', 'C17/value/power/np.asarray',
+                                'np.asarray(X, dtype={}) differs from the '
+                                'stacked parts'.format(op['dtype']))
+            ctx.step()
+            ctx.covered('np.asarray', 'power', str(op['dtype']), sp['dtype'])
+            continue
         if op['t'] not in ('call', 'legacy'):
             continue
         uf = getattr(np, op['uf'])
         ins = [xs[s] for s, _ in op['ins']]
         m_in = [[np.array(p.asarray(), copy=True) for p in x.parts]
                 for x in ins]
+        if len(ins) == 2 and 'scalar_second' in op:
+            ins[1] = op['scalar_second']
+            m_in[1] = [op['scalar_second']] * len(P)
+        elif len(ins) == 2 and op.get('base_second'):
+            b = bs[op['ins'][1][0] % 2]
+            ba = np.array(b.asarray(), copy=True)
+            ins[1] = b if op['base_second'] == 'elem' else \
+                np.array(ba, copy=True)
+            m_in[1] = [ba] * len(P)
+            ctx.fired('power-base-operand-' + op['base_second'])
         if uf.nout != 1:
             continue
         try:
@@ -689,6 +741,15 @@ def _execute_power(plan, ctx, base):
         except Violation:
             raise
         except Exception as e:
+            if not legacy and op.get('base_second') == 'elem' and \
+                    'scalar_second' not in op:
+                raise Violation(
+                    'C17', 'C17/raise/power/call-mixed-with-base-element/' +
+                    type(e).__name__,
+                    'np.{}(X, v) with X in a power space and v an element of '
+                    'its base space raised {}: {} (NumPy broadcasts the '
+                    'underlying arrays)'.format(op['uf'], type(e).__name__,
+                                                str(e)[:120]))
             raise Violation('C17', 'C17/raise/power/{}/{}'.format(
                 'legacy' if legacy else 'call', type(e).__name__),
                 '{} on power-space elements raised {}: {}'.format(
@@ -708,7 +769,8 @@ def _execute_power(plan, ctx, base):
                                 '{} but NumPy gives {} on the underlying '
                                 'arrays'.format(op['uf'], sp['dtype'],
                                                 pa.dtype, m.dtype))
-            if pa.shape != m.shape or _bits(pa.astype(m.dtype)) != _bits(m):
+            if pa.shape != m.shape or not _same_numbers(pa.astype(m.dtype),
+                                                        m):
                 if m.dtype != np.dtype(sp['dtype']):
                     raise Violation(
                         'C17', 'C17/value/power/dtype-changing-ufunc',
@@ -727,6 +789,27 @@ def _execute_power(plan, ctx, base):
 
 
 # --------------------------------------------------------------------------
+
+def _same_numbers(a, m):
+    """Bitwise equality, except for complex results: the power-space path
+    evaluates one (n, ...) array where the model evaluates n parts, and
+    NumPy's complex multiply / divide loops differ in the last bit (FMA)
+    depending on shape and strides."""
+    if _bits(a) == _bits(m):
+        return True
+    if m.dtype.kind != 'c' or a.shape != m.shape:
+        return False
+    with np.errstate(all='ignore'):
+        for fa, fm in ((a.real, m.real), (a.imag, m.imag)):
+            na, nm = np.isnan(fa), np.isnan(fm)
+            if not np.array_equal(na, nm):
+                return False
+            ok = (fa == fm) | na | (np.abs(fa - fm) <= 8 * np.finfo(
+                fm.dtype).eps * (np.abs(a) + np.abs(m)))
+            if not np.all(ok):
+                return False
+    return True
+
 
 def _bits(a):
     a = np.asarray(a)
